@@ -92,6 +92,67 @@ Definition ofDerived (p : list Z * list Q * list Q) (spec legacy : list Q) : sx 
 Definition nodes_of (g : grid) (nmax : Z) : sx :=
   ofList (fun r => ofQs (rankToCoordinates g r [])) (zrange (Z.min nmax (prodZ (g_nx g)))).
 
+(* ---- kind 10: a session of queries on one object.  Query encodings (first atom = function):
+   (0|1|20 rank idim) getCoordinate / DbGrid::getCoordinate / rankToCoordinate   (2 rank) rankToIndice   (3 ind) indiceToRank
+   (4|19 coor centered eps) coordinateToRank   (5 coor centered eps) coordinateToIndices   (6|9|18 rank) coordinates of a rank
+   (7 ind) getCoordinatesByIndice   (8 icorner) getCoordinatesByCorner   (10 coor rank) sampleBelongsToCell   (11) getCenterIndices
+   (12|13 nmult flagCell) multiple / divider   (14 nshift mode) dilate   (15 ind percent) indicesToCoordinate
+   (16 rank shift) getCellCoordinatesByCorner   (17 k) iteratorInit + k iteratorNext   (21 ind idim) indiceToCoordinate
+   (22 coor) point_to_grid *)
+Definition asQuery (s : sx) : option query :=
+  match s with
+  | L [I f; a; b] =>
+      if Z.eqb f 0 || Z.eqb f 1 || Z.eqb f 20 then
+        match asZ a, asNat b with Some r, Some d => Some (QGetCoordinate r d) | _, _ => None end
+      else if Z.eqb f 10 then match asQs a, asZ b with Some c, Some r => Some (QBelongs c r) | _, _ => None end
+      else if Z.eqb f 12 then match asZs a, asB b with Some m, Some fc => Some (QMultiple m fc) | _, _ => None end
+      else if Z.eqb f 13 then match asZs a, asB b with Some m, Some fc => Some (QDivider m fc) | _, _ => None end
+      else if Z.eqb f 14 then match asZs a, asZ b with Some m, Some md => Some (QDilate m md) | _, _ => None end
+      else if Z.eqb f 15 then match asZs a, asQs b with Some i, Some p => Some (QIndicesToCoordinate i p) | _, _ => None end
+      else if Z.eqb f 16 then match asZ a, asZs b with Some r, Some sh => Some (QCellCorner r sh) | _, _ => None end
+      else if Z.eqb f 21 then match asZs a, asNat b with Some i, Some d => Some (QIndiceToCoordinate i d) | _, _ => None end
+      else None
+  | L [I f; a] =>
+      if Z.eqb f 2 then match asZ a with Some r => Some (QRankToIndice r) | None => None end
+      else if Z.eqb f 3 then match asZs a with Some i => Some (QIndiceToRank i) | None => None end
+      else if Z.eqb f 6 || Z.eqb f 9 || Z.eqb f 18 then match asZ a with Some r => Some (QCoordinatesByRank r) | None => None end
+      else if Z.eqb f 7 then match asZs a with Some i => Some (QCoordinatesByIndice i) | None => None end
+      else if Z.eqb f 8 then match asZs a with Some i => Some (QCoordinatesByCorner i) | None => None end
+      else if Z.eqb f 17 then match asNat a with Some k => Some (QIterate k) | None => None end
+      else if Z.eqb f 22 then match asQs a with Some c => Some (QPointToGrid c) | None => None end
+      else None
+  | L [I f; a; b; c] =>
+      match asQs a, asB b, asQ c with
+      | Some co, Some ce, Some e =>
+          if Z.eqb f 4 || Z.eqb f 19 then Some (QCoordinateToRank co ce e)
+          else if Z.eqb f 5 then Some (QCoordinateToIndices co ce e) else None
+      | _, _, _ => None
+      end
+  | L [I f] => if Z.eqb f 11 then Some QCenterIndices else None
+  | _ => None
+  end.
+Definition ofAnswer (a : answer) : sx :=
+  match a with
+  | AZ z => I z | AZs l => ofZs l | AQ q => ofQ q | AQs l => ofQs l | AB b => ofB b
+  | AOutIdx o i => L [ofB o; ofZs i]
+  | ADerived (Some p) => L [I 1; ofZs (fst (fst p)); ofQs (snd (fst p)); ofQs (snd p)]
+  | ADerived None => L [I 0]
+  | AZss l => ofList ofZs l
+  end.
+(* margin of the decisions taken on reals by a query (1 = none) *)
+Definition query_margin (g : grid) (q : query) : Q :=
+  match q with
+  | QCoordinateToRank c ce e | QCoordinateToIndices c ce e => c2i_margin g c ce e
+  | QPointToGrid c => c2i_margin g c true 0
+  | QBelongs c r => belongs_margin g c (rankToCoordinates g r []) []
+  | _ => 1
+  end.
+Definition run_session_sx (g : grid) (qs : list sx) : sx :=
+  match mapM asQuery qs with
+  | Some qs' => L (map2 (fun q a => L [ofAnswer a; ofQ (query_margin g q)]) qs' (run_session g [] qs'))
+  | None => sx_error 10
+  end.
+
 Definition run (c : sx) : sx :=
   match c with
   | L [I 1%Z; g; m; rs; is'] =>
@@ -173,5 +234,7 @@ Definition run (c : sx) : sx :=
                                  ofQs (rotate_inverse r (rotate_direct r v))]) vs']
       | _, _, _ => sx_error 1
       end
+  | L [I 10%Z; g; L qs] =>
+      match asGrid g with Some g' => run_session_sx g' qs | None => sx_error 1 end
   | _ => sx_error 0
   end.
